@@ -79,6 +79,8 @@ func c14outcomes() []c14outcome {
 			c14outcome{id: "allow+warn", exit: exit, response: `{"allowed": true, "warnings": ["w1", "w2"]}`, valid: exit == 0, allowed: true, warnings: []string{"w1", "w2"}},
 			c14outcome{id: "deny+msg", exit: exit, response: `{"allowed": false, "message": "not today"}`, valid: exit == 0, message: "not today"},
 			c14outcome{id: "deny", exit: exit, response: `{"allowed": false}`, valid: exit == 0},
+			c14outcome{id: "deny+msg+warn", exit: exit, response: `{"allowed": false, "message": "no", "warnings": ["w3"]}`, valid: exit == 0, message: "no", warnings: []string{"w3"}},
+			c14outcome{id: "allow+patch+warn", exit: exit, response: `{"allowed": true, "warnings": ["w4"], "patch": "` + b64 + `"}`, valid: exit == 0, allowed: true, warnings: []string{"w4"}, patch: patch},
 			c14outcome{id: "allow+patch", exit: exit, response: `{"allowed": true, "patch": "` + b64 + `"}`, valid: exit == 0, allowed: true, patch: patch},
 		)
 	}
